@@ -53,6 +53,38 @@ func selectCaseOnEdge(b *ssa.BasicBlock, succ int) (*ssa.Select, int, bool) {
 	return sel, int(k), true
 }
 
+// touchesWriteChannels: the function itself sends/receives on one of the writer-protocol channels.
+func touchesWriteChannels(fn *ssa.Function) bool {
+	found := false
+	isProto := func(v ssa.Value) bool {
+		for _, f := range []string{"writeLockC", "writeMergeC", "writeMergedC", "writeAckC"} {
+			if isChanField(v, tDB, f) {
+				return true
+			}
+		}
+		return false
+	}
+	instrs(fn, func(_ *ssa.BasicBlock, _ int, in ssa.Instruction) {
+		switch x := in.(type) {
+		case *ssa.Send:
+			if isProto(x.Chan) {
+				found = true
+			}
+		case *ssa.UnOp:
+			if x.Op == token.ARROW && isProto(x.X) {
+				found = true
+			}
+		case *ssa.Select:
+			for _, st := range x.States {
+				if isProto(st.Chan) {
+					found = true
+				}
+			}
+		}
+	})
+	return found
+}
+
 func tokenSpec(assumeOpenTr bool) *TSpec {
 	return &TSpec{
 		Name: "writelock",
@@ -60,7 +92,17 @@ func tokenSpec(assumeOpenTr bool) *TSpec {
 		// parent through bottom-up summaries; named functions only through the contract table
 		UseSummaries: true,
 		InlineDefers: true,
-		InScope:      func(fn *ssa.Function) bool { return fn.Parent() != nil },
+		InScope: func(fn *ssa.Function) bool {
+			if fn.Parent() != nil {
+				return true
+			}
+			// small extracted helpers of the protocol (e.g. "wait for the group's result") are
+			// summarised like closures; functions with a reviewed contract are handled by Instr
+			if _, ok := tokenContracts[fnName(fn)]; ok {
+				return false
+			}
+			return fn.Pkg != nil && fn.Pkg.Pkg.Path() == modPath+"leveldb" && touchesWriteChannels(fn)
+		},
 		Instr: func(in ssa.Instruction) ([]Eff, bool) {
 			switch x := in.(type) {
 			case *ssa.Send:
@@ -316,6 +358,14 @@ func ruleTokenContracts(p *Prog, r *Report, rule string, floor int) {
 		r.Fn(name)
 		r.Site(1)
 		c, ok := tokenContracts[name]
+		if !ok && fn.Parent() == nil {
+			// an extracted helper with the same effect on every exit is accounted for in its
+			// callers through its summary (they carry the contracts)
+			if sm := sp.Summary(fn); sp.InScope(fn) && sm != nil && !sm.varies {
+				r.OK(name, "helper-summarised", "helper with a path-independent protocol effect: accounted for in its callers' contracts")
+				continue
+			}
+		}
 		if !ok {
 			r.Fail(name, "unreviewed-token-user", "every function that acquires, releases or hands off the write lock has a reviewed contract",
 				"function touches DB.writeLockC / writeMergedC hand-off / a token-owning callee but has no contract row", p.Pos(fn.Pos()), nil)
